@@ -160,6 +160,10 @@ Qed.
 Lemma split_compose dst : contains dst s_compose = false -> split (dst ++ s_compose) s_compose = [dst; []].
 Proof. intros H. unfold split. rewrite split_go_compose by exact H. reflexivity. Qed.
 
+(* for a destination path without "/compose" inside, the parsed destination is the path itself *)
+Lemma compose_dst_plain dst : contains dst s_compose = false -> compose_dst dst = Some dst.
+Proof. intros H. unfold compose_dst. rewrite split_compose by exact H. reflexivity. Qed.
+
 (* ================================================================== *)
 (* 3. The compose handler                                               *)
 
@@ -171,6 +175,7 @@ Lemma handle_compose_unfold s b dst bad srcs dm cp :
     if bad then (s, err 400) else
     match split (dst ++ s_compose) s_compose with
     | [dstname; _] =>
+        match dstname with [] => (s, err 400) | _ =>
         if (Z.of_nat (length srcs) >? gcsMaxComposeSources) then (s, err 400) else
         match fold_left (compose_step s b) srcs (Some (0, [])) with
         | Some (0, data) =>
@@ -186,6 +191,7 @@ Lemma handle_compose_unfold s b dst bad srcs dm cp :
             end
         | Some (code, _) => (s, err code)
         | None => (s, err 500)
+        end
         end
     | _ => (s, err 400)
     end
@@ -219,7 +225,7 @@ Ltac name_fold F :=
 
 Theorem compose_concat s b dst srcs dm cp c :
   resolve_conds s cp = Some c ->
-  contains dst s_compose = false ->
+  contains dst s_compose = false -> dst <> [] ->
   Z.of_nat (length srcs) <= gcsMaxComposeSources ->
   Forall (src_usable s b) srcs ->
   validate_conds (obj_gens (find_obj s b dst)) c = VPass ->
@@ -230,8 +236,8 @@ Theorem compose_concat s b dst srcs dm cp c :
   /\ find_obj s' b dst = Some o'
   /\ forall b' n', (b', n') <> (b, dst) -> find_obj s' b' n' = find_obj s b' n'.
 Proof.
-  intros Hc Hdst Hlen Hall Hv. rewrite handle_compose_unfold, Hc, split_compose by exact Hdst.
-  cbv beta iota.
+  intros Hc Hdst Hdne Hlen Hall Hv. rewrite handle_compose_unfold, Hc, split_compose by exact Hdst.
+  cbv beta iota. destruct dst as [|dc0 dst']; [congruence|]. set (dst := dc0 :: dst') in *.
   destruct (Z.gtb_spec (Z.of_nat (length srcs)) gcsMaxComposeSources) as [Hgt|_]; [lia|].
   assert (Hall' : Forall (fun sc => src_code s b sc = 0) srcs).
   { eapply Forall_impl; [|exact Hall]. intros sc. apply src_usable_code. }
@@ -250,19 +256,20 @@ Proof.
   intros Hgt. rewrite handle_compose_unfold.
   destruct (resolve_conds s cp); [|reflexivity]. destruct bad; [reflexivity|].
   destruct (split _ _) as [|d0 [|d1 [|d2 ds]]]; try reflexivity.
+  destruct d0 as [|d00 d0']; [reflexivity|].
   destruct (Z.gtb_spec (Z.of_nat (length srcs)) gcsMaxComposeSources) as [_|Hle]; [reflexivity|lia].
 Qed.
 
 (* the first source that is missing (all before it usable): 404, nothing changes *)
 Theorem compose_missing_source_404 s b dst pre sc post dm cp c :
   resolve_conds s cp = Some c ->
-  contains dst s_compose = false ->
+  contains dst s_compose = false -> dst <> [] ->
   Z.of_nat (length (pre ++ sc :: post)) <= gcsMaxComposeSources ->
   Forall (src_usable s b) pre -> find_obj s b (fst sc) = None ->
   handle s (RCompose b dst false (pre ++ sc :: post) dm cp) = (s, err 404).
 Proof.
-  intros Hc Hdst Hlen Hpre Hmiss. rewrite handle_compose_unfold, Hc, split_compose by exact Hdst.
-  cbv beta iota.
+  intros Hc Hdst Hdne Hlen Hpre Hmiss. rewrite handle_compose_unfold, Hc, split_compose by exact Hdst.
+  cbv beta iota. destruct dst as [|dc0 dst']; [congruence|]. set (dst := dc0 :: dst') in *.
   destruct (Z.gtb_spec (Z.of_nat (length (pre ++ sc :: post))) gcsMaxComposeSources) as [Hgt|_]; [lia|].
   assert (Hpre' : Forall (fun sc' => src_code s b sc' = 0) pre).
   { eapply Forall_impl; [|exact Hpre]. intros sc'. apply src_usable_code. }
@@ -283,6 +290,7 @@ Proof.
   intros Hin Hbad. rewrite handle_compose_unfold.
   destruct (resolve_conds s cp); [|cbn; auto]. destruct bad; [cbn; auto|].
   destruct (split _ _) as [|d0 [|d1 [|d2 ds]]]; try (cbn; auto; fail).
+  destruct d0 as [|d00 d0']; [cbn; auto|]. set (d0 := d00 :: d0').
   destruct (_ >? _); [cbn; auto|].
   name_fold F.
   destruct (compose_fold_result s b srcs) as [[Hall _]|[code [data [Hf [Hcode _]]]]].
@@ -302,6 +310,7 @@ Proof.
   rewrite handle_compose_unfold.
   destruct (resolve_conds s cp); [|cbn; discriminate]. destruct bad; [cbn; discriminate|].
   destruct (split _ _) as [|d0 [|d1 [|d2 ds]]]; try (cbn; discriminate).
+  destruct d0 as [|d00 d0']; [cbn; discriminate|]. set (d0 := d00 :: d0').
   destruct (_ >? _); [cbn; discriminate|].
   name_fold F.
   destruct (compose_fold_result s b srcs) as [[Hall Hf]|[code [data [Hf [Hcode _]]]]];
@@ -319,7 +328,7 @@ Qed.
 Theorem copy_clones s b1 n1 b2 n2 f1 rest b2' f2 o :
   contains (n1 ++ s_rewrite_b ++ b2 ++ s_o ++ n2) s_compose = false ->
   split (n1 ++ s_rewrite_b ++ b2 ++ s_o ++ n2) s_rewrite_b = [f1; rest] ->
-  split2 rest s_o = [b2'; f2] ->
+  split2 rest s_o = [b2'; f2] -> f2 <> [] ->
   find_obj s b1 f1 = Some o ->
   let s' := fst (handle s (RCopy b1 n1 b2 n2)) in
   let rsp := snd (handle s (RCopy b1 n1 b2 n2)) in
@@ -328,7 +337,9 @@ Theorem copy_clones s b1 n1 b2 n2 f1 rest b2' f2 o :
   /\ find_obj s' b2' f2 = Some o'
   /\ forall b' n', (b', n') <> (b2', f2) -> find_obj s' b' n' = find_obj s b' n'.
 Proof.
-  intros Hc Hs1 Hs2 Hf. cbn [handle]. rewrite Hc, Hs1, Hs2, Hf, find_obj_store_add_same. cbn [fst snd].
+  intros Hc Hs1 Hs2 Hfne Hf. cbn [handle]. rewrite Hc, Hs1, Hs2.
+  destruct f2 as [|f20 f2']; [congruence|]. set (f2 := f20 :: f2') in *.
+  rewrite Hf, find_obj_store_add_same. cbn [fst snd].
   split; [reflexivity|]. split; [apply find_obj_store_add_same|].
   intros b' n' Hne. apply find_obj_store_add_other. exact Hne.
 Qed.
@@ -336,22 +347,25 @@ Qed.
 Corollary copy_source_untouched s b1 n1 b2 n2 f1 rest b2' f2 o :
   contains (n1 ++ s_rewrite_b ++ b2 ++ s_o ++ n2) s_compose = false ->
   split (n1 ++ s_rewrite_b ++ b2 ++ s_o ++ n2) s_rewrite_b = [f1; rest] ->
-  split2 rest s_o = [b2'; f2] ->
+  split2 rest s_o = [b2'; f2] -> f2 <> [] ->
   find_obj s b1 f1 = Some o -> (b1, f1) <> (b2', f2) ->
   find_obj (fst (handle s (RCopy b1 n1 b2 n2))) b1 f1 = Some o.
 Proof.
-  intros Hc Hs1 Hs2 Hf Hne.
-  destruct (copy_clones s b1 n1 b2 n2 f1 rest b2' f2 o Hc Hs1 Hs2 Hf) as [_ [_ H]].
+  intros Hc Hs1 Hs2 Hf2 Hf Hne.
+  destruct (copy_clones s b1 n1 b2 n2 f1 rest b2' f2 o Hc Hs1 Hs2 Hf2 Hf) as [_ [_ H]].
   rewrite H by exact Hne. exact Hf.
 Qed.
 
 Theorem copy_missing_404 s b1 n1 b2 n2 f1 rest b2' f2 :
   contains (n1 ++ s_rewrite_b ++ b2 ++ s_o ++ n2) s_compose = false ->
   split (n1 ++ s_rewrite_b ++ b2 ++ s_o ++ n2) s_rewrite_b = [f1; rest] ->
-  split2 rest s_o = [b2'; f2] ->
+  split2 rest s_o = [b2'; f2] -> f2 <> [] ->
   find_obj s b1 f1 = None ->
   handle s (RCopy b1 n1 b2 n2) = (s, err 404).
-Proof. intros Hc Hs1 Hs2 Hf. cbn [handle]. rewrite Hc, Hs1, Hs2, Hf. reflexivity. Qed.
+Proof.
+  intros Hc Hs1 Hs2 Hne Hf. cbn [handle]. rewrite Hc, Hs1, Hs2.
+  destruct f2 as [|f20 f2']; [congruence|]. rewrite Hf. reflexivity.
+Qed.
 
 (* a copy answered 200 is exactly the clone case *)
 Lemma copy_200_inv s b1 n1 b2 n2 :
@@ -364,6 +378,7 @@ Proof.
   cbn [handle]. destruct (contains _ _); [cbn; discriminate|].
   destruct (split _ _) as [|f1 [|rest [|x xs]]] eqn:E1; try (cbn; discriminate).
   destruct (split2 _ _) as [|b2' [|f2 [|y ys]]] eqn:E2; try (cbn; discriminate).
+  destruct f2 as [|f20 f2']; [cbn; discriminate|]. set (f2 := f20 :: f2') in *.
   destruct (find_obj s b1 f1) as [o|] eqn:E3; [|cbn; discriminate].
   rewrite find_obj_store_add_same. cbn [fst snd]. intros _. exists f1, rest, b2', f2, o.
   repeat split; auto.
